@@ -95,6 +95,15 @@ def confirm(srcs):
             print('%-8s %s  %s' % (sid, 'CONFIRMED' if ok else 'REJECTED', msg), flush=True)
 
 
+def _respells_known(f):
+    from sa import report
+    k = f.key().split('|')
+    for e in report.load_known():
+        if e.get('status') == 'known' and e.get('key', '').split('|')[:3] == k[:3]:
+            return True
+    return False
+
+
 def detect_one(sid):
     from sa.model import Model, AnalysisError
     from sa.main import run_property
@@ -210,6 +219,9 @@ def neutral_one(src):
             _nz.reset()
             try:
                 viol, results = run_property(p, 'quick', 0, model=model, quiet=True, write=False)
+                # a known (genuine, recorded) defect that the refactoring merely re-spells is not a
+                # FALSE alarm: same rule, same function as a known finding of the clean tree
+                viol = [f for f in viol if not _respells_known(f)]
                 if viol:
                     res[p] = sorted({'%s: %s' % (f.rule, f.msg[:90]) for f in viol})
             except AnalysisError as e:
